@@ -30,6 +30,7 @@ ASSUMPTIONS = [
     "the source-side exactly-once delivery of items to send() is C13.DRIVE",
 ]
 RULES = {
+    "C15.GROUP": "premise: the FutureGroup holding the item futures registers every pushed future, polls every armed member, yields each output exactly once and None only when empty",
     "C15.ENUM": "index read before the single increment and attached at send; EnumerateFuture returns (stored index, item)",
     "C15.TAKE": "no forward when count >= limit; else count+1 once, one inner.send of the given future; Break iff count >= limit afterwards; count starts 0, limit from Take::new only",
     "C15.COLLECT": "VecConsumer: one push per send; every completed output pushed to the Vec with no suspension in between; loops end only on None; the lent Vec is returned",
@@ -44,6 +45,9 @@ def run(ctx):
     for cfg in ctx.configs:
         ctx.current_config = cfg
         M = ctx.model(cfg)
+        from . import c11 as _c11
+        _c11.premises(ctx, M, "C15.GROUP")
+        ctx.floor("C15.GROUP", cfg, 40)
         rule_enum(ctx, M)
         rule_take(ctx, M)
         rule_collect(ctx, M)
